@@ -8,14 +8,14 @@ import (
 
 // SpecEnv resolves identifiers inside specification expressions.
 type SpecEnv struct {
-	bound  map[string]*Val // quantifier-bound variables (visible inside old(...) too)
+	bound  map[string]*Val          // quantifier-bound variables (visible inside old(...) too)
 	heapOf func(global *Term) *Term // current heap array for a heap field (nil: the entry heap constants)
-	names map[string]*Val
-	st    *State // caller state for locals / ghost (may be nil)
-	ex    *Exec  // may be nil (spec function bodies, lemmas)
-	old   *SpecEnv
-	pkg   string
-	w     *World
+	names  map[string]*Val
+	st     *State // caller state for locals / ghost (may be nil)
+	ex     *Exec  // may be nil (spec function bodies, lemmas)
+	old    *SpecEnv
+	pkg    string
+	w      *World
 }
 
 func (env *SpecEnv) with(extra map[string]*Val) *SpecEnv {
